@@ -61,10 +61,9 @@ def master(seed):
 def bip39_seed(mnemonic, passphrase):
     nf = T.const('NFKD')
 
+    from ..externals import normalize, encode
+
     def norm(s):
-        from ..externals import normalize
         return normalize(nf, s)
-    return T.raw_op('PBKDF2', T.const('sha512'),
-                    T.raw_op('ENCODE', norm(mnemonic), T.const('utf-8'), T.const('strict')),
-                    T.raw_op('ENCODE', T.cat(T.const('mnemonic'), norm(passphrase)), T.const('utf-8'), T.const('strict')),
-                    T.const(2048), T.NONE)
+    return T.raw_op('PBKDF2', T.const('sha512'), encode(norm(mnemonic)),
+                    encode(T.cat(T.const('mnemonic'), norm(passphrase))), T.const(2048), T.NONE)
